@@ -252,6 +252,23 @@ def _minmax(f, es):
         return es[0]
     if all(e.is_number for e in es):
         return f(*es)
+    # sign facts first: min(T, 0) with T >= 0 is 0, max(T, 0) is T (the uninterpreted application below is declared
+    # positive, which is only right for positive operands)
+    nums = [e for e in es if e.is_number and e.is_real]
+    syms_ = [e for e in es if not (e.is_number and e.is_real)]
+    if nums:
+        m = (min if f is sp.Min else max)(nums)
+        if f is sp.Min and m <= 0 and all(e.is_nonnegative for e in syms_):
+            return m
+        if f is sp.Max and m >= 0 and all(e.is_nonpositive for e in syms_):
+            return m
+        if f is sp.Min and m >= 0 and all(e.is_nonpositive for e in syms_) and len(syms_) == 1:
+            return syms_[0]
+        if f is sp.Max and m <= 0 and all(e.is_nonnegative for e in syms_) and len(syms_) == 1:
+            return syms_[0]
+    if not all(e.is_positive for e in es):
+        # operands of unknown sign: sympy's own Min/Max (no positivity is claimed for the result)
+        return f(*es)
     # kept as an uninterpreted application in the value graph (sympy's symbolic Min/Max
     # ordering search is very slow); algebra.is_zero evaluates it at the sample points
     return (pymin if f is sp.Min else pymax)(*es)
@@ -1101,8 +1118,8 @@ def value_attr(I, obj, name):
                     a = [_pyfmt(x) if not isinstance(x, (list, tuple, GenVal)) else [ _pyfmt(y) for y in iterate(I, x)] for x in a]
                     k = {kk: _pyfmt(v) for kk, v in k.items()}
                 except ValueError:
-                    if name == "format":
-                        return StrSym()
+                    if name in ("format", "join"):
+                        return StrSym()          # text built from symbolic pieces (a message): an opaque string
                     raise AnalysisError(f"str.{name} with a symbolic argument")
                 if name == "join" and a and not all(isinstance(x, str) for x in a[0]):
                     if any(isinstance(x, StrSym) for x in a[0]):
@@ -2152,7 +2169,8 @@ def _math(I, name):
         "abs": m1(sp.Abs), "fabs": m1(sp.Abs), "floor": m1(sp.floor),
         "asarray": lambda x, *a, **k: _as_dtype(I, _tovec(x), (list(a) + [k.get("dtype")])[0], copy=False),
         "array": lambda x, *a, **k: _as_dtype(I, _tovec(x), (list(a) + [k.get("dtype")])[0], copy=True),
-        "maximum": m1(lambda a, b: sp.Max(a, b)), "minimum": m1(lambda a, b: sp.Min(a, b)),
+        "maximum": m1(lambda a, b: sp.nan if (a is sp.nan or b is sp.nan) else sp.Max(a, b)),       # (numpy propagates NaN)
+        "minimum": m1(lambda a, b: sp.nan if (a is sp.nan or b is sp.nan) else sp.Min(a, b)),
         "real": m1(sp.re), "imag": m1(sp.im),
     }
     if name in table:
